@@ -383,6 +383,8 @@ type vm struct {
 	curAsyncRunner *asyncRunner
 
 	profTracker *profTracker
+
+	verif verifVMExt
 }
 
 type instruction interface {
@@ -625,6 +627,7 @@ func (vm *vm) run() {
 		} else {
 			count--
 		}
+		verifStep(vm)
 		if interrupted = atomic.LoadUint32(&vm.interrupted) != 0; interrupted {
 			break
 		}
